@@ -293,3 +293,48 @@ Proof.
   - split; lia.
 Qed.
 End ZcrossP.
+
+(* ------------------------------------------------------------------ attack with a sustain stream; refused calls *)
+Section AttackP.
+Context {A : Type} (o : A) (n : nat) (c : nat -> bool).
+Lemma mattack_safe : safe c (need_attack n) (mattack o n).
+Proof.
+  exists (fun s r y => match s with
+                       | AInit => r = 0 /\ y = 0
+                       | ALine j => (0 < j -> y + j = n /\ r <= 1) /\ (j = 0 -> n <= y /\ r + n <= 1 + y)
+                       | AOut _ => n <= y /\ r + n <= 2 + y
+                       | AFin => r <= need_attack n (S y)
+                       | AErr => True end).
+  split; [cbn; lia|].
+  intros s r y HI. unfold safe_step, need_attack, bump. destruct s as [|[|j]|v| |]; cbn [step mattack].
+  - destruct HI as [Hr Hy]. subst. repeat split; try (intros _); try destruct (c 0); lia.
+  - destruct HI as [_ H0]. specialize (H0 eq_refl). repeat split; try (intros _); try destruct (c 0); lia.
+  - destruct HI as [H1 _]. specialize (H1 ltac:(lia)). split; [lia|]. split; intros; lia.
+  - split; [lia|]. split; intros; lia.
+  - exact HI.
+  - exact Logic.I.
+Qed.
+
+Lemma mattack_live : c 0 = true -> live c (need_attack n) (mattack o n) 2.
+Proof.
+  intro C0.
+  exists (fun s r y b => match s with
+                         | AInit => r = 0 /\ y = 0 /\ 2 <= b
+                         | ALine j => (0 < j -> y + j = n /\ r = 1) /\ (j = 0 -> n <= y /\ r + n = 1 + y /\ 1 <= b)
+                         | AOut _ => n <= y /\ r + n = 2 + y
+                         | AFin => False
+                         | AErr => False end).
+  split; [cbn; lia|].
+  intros s r y b HP. unfold live_step, need_attack, bump.
+  destruct s as [|[|j]|v| |]; cbn [step mattack]; try contradiction; rewrite ?C0.
+  - destruct HP as [Hr [Hy Hb]]. subst. destruct b as [|b']; [lia|]. exists b'. split; [reflexivity|].
+    intros _. split; intros; lia.
+  - destruct HP as [_ H0]. specialize (H0 eq_refl). destruct b as [|b']; [lia|]. exists b'. split; [reflexivity|].
+    intros _. lia.
+  - destruct HP as [H1 _]. specialize (H1 ltac:(lia)). split; [lia|]. split; intros; lia.
+  - split; [lia|]. split; intros; lia.
+Qed.
+End AttackP.
+
+Lemma mraise_safe {A B} (e : string) c need : safe c need (@mraise A B e).
+Proof. exists (fun _ _ _ => True). split; [exact Logic.I|]. intros s r y _. exact Logic.I. Qed.
